@@ -42,6 +42,8 @@ type ResourceCollection struct {
 	capacity    int
 	maxCapacity int
 	gap         int
+
+	verif verifColl
 }
 
 // NewResourceCollection returns new ResourceCollection.
@@ -58,6 +60,7 @@ func NewResourceCollection(ns resource.Namespace, typ resource.Type, initialCapa
 	}
 
 	collection.c = sync.NewCond(&collection.mu)
+	collection.verifNew()
 
 	return collection
 }
@@ -80,6 +83,7 @@ func (collection *ResourceCollection) publish(event state.Event) {
 	event.Bookmark = encodeBookmark(collection.writePos)
 	collection.stream[collection.writePos%int64(collection.capacity)] = event
 	collection.writePos++
+	collection.verifPublish(&event)
 
 	collection.c.Broadcast()
 }
@@ -132,6 +136,7 @@ func (collection *ResourceCollection) inject(resource resource.Resource) {
 		Type:     state.Created,
 		Resource: resource,
 	})
+	collection.verifInject(resource)
 }
 
 // Create a resource.
@@ -146,6 +151,8 @@ func (collection *ResourceCollection) Create(ctx context.Context, res resource.R
 	defer collection.mu.Unlock()
 
 	if _, exists := collection.storage[resCopy.Metadata().ID()]; exists {
+		collection.verifOp("create", "exists", resCopy.Metadata().ID(), resCopy.Metadata(), resCopy, owner, nil)
+
 		return ErrAlreadyExists(resCopy.Metadata())
 	}
 
@@ -159,11 +166,14 @@ func (collection *ResourceCollection) Create(ctx context.Context, res resource.R
 
 	if collection.store != nil {
 		if err := collection.store.Put(ctx, collection.typ, resCopy); err != nil {
+			collection.verifOp("create", "backing", resCopy.Metadata().ID(), resCopy.Metadata(), resCopy, owner, nil)
+
 			return err
 		}
 	}
 
 	collection.inject(resCopy)
+	collection.verifOp("create", "ok", resCopy.Metadata().ID(), resCopy.Metadata(), resCopy, owner, nil)
 
 	if err := res.Metadata().SetOwner(owner); err != nil {
 		return err
@@ -186,20 +196,28 @@ func (collection *ResourceCollection) Update(ctx context.Context, newResource re
 
 	curResource, exists := collection.storage[id]
 	if !exists {
+		collection.verifOp("update", "notfound", id, newResourceCopy.Metadata(), newResourceCopy, options.Owner, options.ExpectedPhase)
+
 		return ErrNotFound(newResourceCopy.Metadata())
 	}
 
 	if curResource.Metadata().Owner() != options.Owner {
+		collection.verifOp("update", "owner", id, newResourceCopy.Metadata(), newResourceCopy, options.Owner, options.ExpectedPhase)
+
 		return ErrOwnerConflict(curResource.Metadata(), curResource.Metadata().Owner())
 	}
 
 	curVersion := newResourceCopy.Metadata().Version()
 
 	if !curResource.Metadata().Version().Equal(curVersion) {
+		collection.verifOp("update", "version", id, newResourceCopy.Metadata(), newResourceCopy, options.Owner, options.ExpectedPhase)
+
 		return ErrVersionConflict(curResource.Metadata(), curVersion, curResource.Metadata().Version())
 	}
 
 	if options.ExpectedPhase != nil && curResource.Metadata().Phase() != *options.ExpectedPhase {
+		collection.verifOp("update", "phase", id, newResourceCopy.Metadata(), newResourceCopy, options.Owner, options.ExpectedPhase)
+
 		return ErrPhaseConflict(curResource.Metadata(), *options.ExpectedPhase)
 	}
 
@@ -212,6 +230,8 @@ func (collection *ResourceCollection) Update(ctx context.Context, newResource re
 
 	if collection.store != nil {
 		if err := collection.store.Put(ctx, collection.typ, newResourceCopy); err != nil {
+			collection.verifOp("update", "backing", id, nil, newResourceCopy, options.Owner, options.ExpectedPhase)
+
 			return err
 		}
 	}
@@ -223,6 +243,7 @@ func (collection *ResourceCollection) Update(ctx context.Context, newResource re
 		Resource: newResourceCopy,
 		Old:      curResource,
 	})
+	collection.verifOp("update", "ok", id, nil, newResourceCopy, options.Owner, options.ExpectedPhase)
 
 	// This should be safe, because we don't allow to share metadata between goroutines even for read-only
 	// purposes.
@@ -240,19 +261,27 @@ func (collection *ResourceCollection) Destroy(ctx context.Context, ptr resource.
 
 	resource, exists := collection.storage[id]
 	if !exists {
+		collection.verifOp("destroy", "notfound", id, nil, nil, owner, nil)
+
 		return ErrNotFound(ptr)
 	}
 
 	if resource.Metadata().Owner() != owner {
+		collection.verifOp("destroy", "owner", id, nil, nil, owner, nil)
+
 		return ErrOwnerConflict(resource.Metadata(), resource.Metadata().Owner())
 	}
 
 	if !resource.Metadata().Finalizers().Empty() {
+		collection.verifOp("destroy", "fins", id, nil, nil, owner, nil)
+
 		return ErrPendingFinalizers(*resource.Metadata())
 	}
 
 	if collection.store != nil {
 		if err := collection.store.Destroy(ctx, collection.typ, ptr); err != nil {
+			collection.verifOp("destroy", "backing", id, nil, nil, owner, nil)
+
 			return err
 		}
 	}
@@ -263,6 +292,7 @@ func (collection *ResourceCollection) Destroy(ctx context.Context, ptr resource.
 		Type:     state.Destroyed,
 		Resource: resource,
 	})
+	collection.verifOp("destroy", "ok", id, nil, nil, owner, nil)
 
 	return nil
 }
@@ -333,10 +363,14 @@ func (collection *ResourceCollection) Watch(ctx context.Context, id resource.ID,
 
 		pos, err = decodeBookmark(options.StartFromBookmark)
 		if err != nil {
+			collection.verifWatchReject("one", id, options.StartFromBookmark)
+
 			return err
 		}
 
 		if pos < collection.writePos-int64(collection.capacity)+int64(collection.gap) || pos < 0 || pos >= collection.writePos {
+			collection.verifWatchReject("one", id, options.StartFromBookmark)
+
 			return ErrInvalidWatchBookmark
 		}
 
@@ -354,6 +388,8 @@ func (collection *ResourceCollection) Watch(ctx context.Context, id resource.ID,
 		}
 	}
 
+	wid := collection.verifWatchStart("one", id, options.TailEvents, options.StartFromBookmark, false, false, pos, &initialEvent, nil, nil)
+
 	go func() {
 		<-ctx.Done()
 
@@ -368,6 +404,8 @@ func (collection *ResourceCollection) Watch(ctx context.Context, id resource.ID,
 			if !channel.SendWithContext(ctx, ch, initialEvent) {
 				return
 			}
+
+			collection.verifSend(wid, &initialEvent)
 		}
 
 		for {
@@ -397,6 +435,7 @@ func (collection *ResourceCollection) Watch(ctx context.Context, id resource.ID,
 			if collection.writePos-pos > int64(collection.capacity) {
 				collectionWritePos, collectionCapacity := collection.writePos, collection.capacity
 
+				collection.verifRead(wid, pos, true, false)
 				collection.mu.Unlock()
 
 				channel.SendWithContext(
@@ -409,6 +448,7 @@ func (collection *ResourceCollection) Watch(ctx context.Context, id resource.ID,
 						),
 					},
 				)
+				collection.verifSendErrored(wid)
 
 				return
 			}
@@ -424,6 +464,7 @@ func (collection *ResourceCollection) Watch(ctx context.Context, id resource.ID,
 				}
 			}
 
+			collection.verifRead(wid, pos, false, event.Resource.Metadata().ID() == id)
 			collection.mu.Unlock()
 
 			if event.Resource.Metadata().ID() != id {
@@ -434,6 +475,8 @@ func (collection *ResourceCollection) Watch(ctx context.Context, id resource.ID,
 			if !channel.SendWithContext(ctx, ch, event) {
 				return
 			}
+
+			collection.verifSend(wid, &event)
 		}
 	}()
 
@@ -496,16 +539,22 @@ func (collection *ResourceCollection) WatchAll(ctx context.Context, singleCh cha
 
 		pos, err = decodeBookmark(options.StartFromBookmark)
 		if err != nil {
+			collection.verifWatchReject("all", "", options.StartFromBookmark)
+
 			return err
 		}
 
 		if pos < collection.writePos-int64(collection.capacity)+int64(collection.gap) || pos < -1 || pos >= collection.writePos {
+			collection.verifWatchReject("all", "", options.StartFromBookmark)
+
 			return ErrInvalidWatchBookmark
 		}
 
 		// skip the bookmarked event
 		pos++
 	}
+
+	wid := collection.verifWatchStart("all", "", options.TailEvents, options.StartFromBookmark, options.BootstrapContents, options.BootstrapBookmark, pos, nil, bootstrapList, matches)
 
 	go func() {
 		<-ctx.Done()
@@ -531,6 +580,8 @@ func (collection *ResourceCollection) WatchAll(ctx context.Context, singleCh cha
 					) {
 						return
 					}
+
+					collection.verifSendBoot(wid, res)
 				}
 
 				if !channel.SendWithContext(
@@ -543,6 +594,8 @@ func (collection *ResourceCollection) WatchAll(ctx context.Context, singleCh cha
 				) {
 					return
 				}
+
+				collection.verifSendMark(wid, state.Bootstrapped, pos-1)
 			case aggCh != nil:
 				events := xslices.Map(bootstrapList, func(r resource.Resource) state.Event {
 					return state.Event{
@@ -560,6 +613,8 @@ func (collection *ResourceCollection) WatchAll(ctx context.Context, singleCh cha
 				if !channel.SendWithContext(ctx, aggCh, events) {
 					return
 				}
+
+				collection.verifSendBatch(wid, events)
 			}
 
 			// make the list nil so that it gets GC'ed, we don't need it anymore after this point
@@ -584,6 +639,8 @@ func (collection *ResourceCollection) WatchAll(ctx context.Context, singleCh cha
 					return
 				}
 			}
+
+			collection.verifSend(wid, &event)
 		}
 
 		for {
@@ -613,6 +670,7 @@ func (collection *ResourceCollection) WatchAll(ctx context.Context, singleCh cha
 			if collection.writePos-pos > int64(collection.capacity) {
 				collectionWritePos, collectionCapacity := collection.writePos, collection.capacity
 
+				collection.verifRead(wid, pos, true, false)
 				collection.mu.Unlock()
 
 				overrunEvent := state.Event{
@@ -630,6 +688,8 @@ func (collection *ResourceCollection) WatchAll(ctx context.Context, singleCh cha
 					channel.SendWithContext(ctx, aggCh, []state.Event{overrunEvent})
 				}
 
+				collection.verifSendErrored(wid)
+
 				return
 			}
 
@@ -643,6 +703,8 @@ func (collection *ResourceCollection) WatchAll(ctx context.Context, singleCh cha
 			} else {
 				events = slices.Concat(collection.stream[first:], collection.stream[:last])
 			}
+
+			collection.verifReadAll(wid, pos, events, matches)
 
 			pos = collection.writePos
 
@@ -691,11 +753,15 @@ func (collection *ResourceCollection) WatchAll(ctx context.Context, singleCh cha
 				if !channel.SendWithContext(ctx, aggCh, events) {
 					return
 				}
+
+				collection.verifSendBatch(wid, events)
 			case singleCh != nil:
 				for _, event := range events {
 					if !channel.SendWithContext(ctx, singleCh, event) {
 						return
 					}
+
+					collection.verifSend(wid, &event)
 				}
 			}
 		}
